@@ -93,6 +93,7 @@ mod verif_buffer {
 
     // push: complete in pos, chunk length 0..=6 (bounded in the chunk length only)
     #[kani::proof]
+    #[kani::solver(kissat)]
     fn proof_buffer_push() {
         let mut b = Buffer::default();
         let old = any_buffer(&mut b);
@@ -160,6 +161,7 @@ mod verif_buffer {
 
     // push_tagged: data length 0..=6; on Err the buffer is either untouched or holds the data without header
     #[kani::proof]
+    #[kani::solver(kissat)]
     fn proof_buffer_push_tagged() {
         let mut b = Buffer::default();
         let old = any_buffer(&mut b);
